@@ -124,6 +124,26 @@ def rule_ed_sem(ctx: RuleContext, p: Program, rid: str) -> None:
                     return os.path.dirname(b_) if e.attr == 'parent' else os.path.basename(b_)
             if isinstance(e, ast.Call) and isinstance(e.func, ast.Subscript) and norm(e.func.value) in ('dict', 'list', 'set', 'collections.deque', 'deque') and not e.args:
                 return {} if norm(e.func.value) == 'dict' else []              # dict[str, str]() and friends
+            if isinstance(e, ast.Call) and (dotted(e.func) or '').split('.')[0] in ('zlib', 'hashlib', 'binascii') and '.' in (dotted(e.func) or '') \
+                    and (dotted(e.func) or '').split('.')[0] not in env:
+                # a checksum / digest of a text is a LOSSY summary: different texts can share it.  Abstractly it is the worst member of its family,
+                # the constant function -- a decision that rests on the digest alone then treats every text alike, one that falls back on the full
+                # text is unaffected
+                for a_ in e.args:
+                    self.expr(a_, env)
+                self.lossy = getattr(self, 'lossy', 0) + 1
+                return 0 if (dotted(e.func) or '').split('.')[0] != 'hashlib' else possem.Obj('Digest', {}, 'digest object')
+            if isinstance(e, ast.Call) and isinstance(e.func, ast.Name) and e.func.id == 'hash' and 'hash' not in env and len(e.args) == 1:
+                self.expr(e.args[0], env)
+                self.lossy = getattr(self, 'lossy', 0) + 1
+                return 0
+            if isinstance(e, ast.Call) and isinstance(e.func, ast.Attribute) and e.func.attr in ('hexdigest', 'digest', 'update') \
+                    and not (isinstance(e.func.value, ast.Name) and e.func.value.id not in env):
+                d_ = self.expr(e.func.value, env)
+                if isinstance(d_, possem.Obj) and d_.cls == 'Digest':
+                    for a_ in e.args:
+                        self.expr(a_, env)
+                    return None if e.func.attr == 'update' else ''
             if isinstance(e, ast.Call):
                 fname = dotted(e.func) or norm(e.func)
                 args = None
@@ -503,6 +523,52 @@ def rule_ed_sem(ctx: RuleContext, p: Program, rid: str) -> None:
             problems.setdefault('edit_file_recursive', f'two sessions in a row on one Editor, {gname}: the second session reads {reread} and hands out '
                                                        f'{"models of the first session" if stale or not reread else "its own models"}; it must read every file again and hand out models '
                                                        f'of the files as they are now (state kept between sessions -- on the Editor, in a default argument -- leaks one session into the next)')
+    # two sessions of ONE Editor that overlap (`with ed.edit_file_recursive(a) as fa, ed.edit_file_recursive(b) as fb:`): what a session read and what
+    # it hands out belong to that call -- kept on the Editor, the inner session replaces the outer one's
+    for outer, inner in (('edit_file_recursive', 'edit_file_recursive'), ('edit_file_recursive', 'edit_file'), ('edit_file', 'edit_file_recursive'), ('edit_file', 'edit_file')):
+        files = {'d/a.bean': 'include b.bean\nA', 'd/b.bean': 'B', 'e/x.bean': 'include y.bean\nX', 'e/y.bean': 'Y'}
+        fs = dict(files)
+        fo, fi = ed.lookup(outer), ed.lookup(inner)
+        me = possem.Obj('Editor', {'_parser': possem.Obj('Parser', {}, 'parser')}, 'editor')
+
+        def edit(v: Any, key: str, tag: str) -> str:
+            mo = v[key] if isinstance(v, dict) else v
+            mo.f['text'] = str(mo.f['text']) + tag
+            return key
+
+        def inner_body(it_: Any, v: Any) -> None:
+            edit(v, 'e/y.bean' if isinstance(v, dict) else 'e/x.bean', '+inner')
+
+        def outer_body(it_: Any, v: Any, fi: Any = fi, me: Any = me) -> None:
+            edit(v, 'd/b.bean' if isinstance(v, dict) else 'd/a.bean', '+outer')
+            it_.body, it_.yielded = inner_body, False
+            it_.call_function(fi, [me, 'e/x.bean'], {})
+            it_.body, it_.yielded = outer_body, True
+
+        it = Interp(fs, {}, outer_body)
+        it.made = set()
+        n += 1
+        show = f'{outer} on d/a.bean with an {inner} session on e/x.bean of the same Editor opened and closed inside its with-block'
+        try:
+            it.call_function(fo, [me, 'd/a.bean'], {})
+        except possem.Raised as ex:
+            problems.setdefault(outer, f'{show}: raises {ex}')
+            continue
+        want = dict(files)
+        want['d/b.bean' if outer == 'edit_file_recursive' else 'd/a.bean'] += '+outer'
+        want['e/y.bean' if inner == 'edit_file_recursive' else 'e/x.bean'] += '+inner'
+        renames = {x[1]: x[2] for x in it.log if x[0] == 'rename'}
+        written = sorted(os.path.normpath(renames.get(x[1], x[1])) for x in it.log if x[0] == 'open-w')
+        should = sorted(k for k in want if want[k] != files[k])
+        if it.fs != want or written != should:
+            gone = sorted(set(files) - set(it.fs))
+            wrong = {k for k in set(want) | set(it.fs) if want.get(k) != it.fs.get(k)} | (set(written) ^ set(should))
+            # the ledger under d/ is the outer session's, the one under e/ the inner session's: the session whose files come out wrong is reported
+            for who in ([outer] if any(k.startswith('d/') for k in wrong) else []) + ([inner] if any(k.startswith('e/') for k in wrong) else []):
+                problems.setdefault(who, f'{show}: afterwards the files are {dict(sorted(it.fs.items()))}, opened for writing: {written}'
+                                           f'{"; deleted: " + str(gone) if gone else ""}; expected {dict(sorted(want.items()))} with only {should} written -- what a session '
+                                           f'has read is state of that call; kept on the Editor object it is replaced by the overlapping session, and the outer session '
+                                           f'then deletes / rewrites files according to the other ledger')
     for entry in ('edit_file', 'edit_file_recursive'):
         fn = ed.lookup(entry)
         ctx.check(entry not in problems, rid, f'editor:Editor.{entry}', 'sessions against the mock file system',
